@@ -16,7 +16,10 @@ RULE = ("One evaluation = one seeded two-client execution (Deferred and "
         "cannot hide) with get_*() calls inserted at arbitrary script "
         "positions incl. after close, connection faults, and - in the "
         "'unordered' configurations - duplicated/reordered `message` "
-        "delivery. Non-trivial: both sides reached 'verifier' and (a fault "
+        "delivery; in 3 of 8 configurations a planned uplink loss (server "
+        "stops reading one client's connection at a drawn event, the "
+        "connection dies at a later drawn event, in-flight messages lost). "
+        "Non-trivial: both sides reached 'verifier' and (a fault "
         "fired or an extra get_*() was issued before its event). Distinct: "
         "event-log digests among non-trivial runs.")
 LEVEL_TEXT = ("Seeded exploration; per-side automaton code<key<verifier<"
@@ -42,6 +45,7 @@ def configs(tier):
         out.append({"spake": "real" if i == 0 else "stub",
                     "ordered": i % 2 == 0,
                     "reorder_heavy": i % 2 == 1,
+                    "uplink_loss": i in (2, 4, 5),
                     "max_msgs": 4 if tier == "quick" else 8})
     return out
 
@@ -71,7 +75,15 @@ def run_one(seed, tape, opts):
     order = ca.EventOrderOracle([a, b], versions_first=ordered)
     prefix = ca.PrefixOracle(a, b)
 
+    planned = None
+    if opts.get("uplink_loss"):
+        t1 = tape.choose(160, "ul_t1")
+        planned = w.plan_uplink_loss(tape.pick((a, b), "ul_victim"), t1,
+                                     t1 + 1 + tape.choose(160, "ul_t2"))
+
     def oracle():
+        if planned is not None:
+            planned()
         order.step()
         prefix.step()
     sim.after_step = oracle
